@@ -138,11 +138,11 @@ PROPS = {
     ),
     "C19": dict(
         claim="theorems over the model of builder/conversions.go (integer fragment): for every destination width and signedness, set{Int,Uint}From{Int,Uint,BigInt} succeed exactly when the mathematical value fits and then store that value (iff statements: never wraps, never truncates, never rejects a fitting value). "
-              "Harness: every numeric event form (small/negative/wide/big ints, binary/decimal/big floats incl. NaN, infinities, -0, 2^53+-1, 2^63, 2^64-1) x 16 destination types through UnmarshalFromCBEDocument; the stored value is compared with the exact rational value of the source; the integer fragment is also compared with the Lean model (CONV)",
-        note="partial: float-involving conversions are decided by the exact-rational oracle only (the post-store comparisons rely on amd64's out-of-range float->int result, which is not modelled). Known finding: decimal -> big.Float rounds",
+              "Harness: every numeric event form (small/negative/wide/big ints, binary/decimal/big floats incl. NaN, infinities, -0, 2^53+-1, 2^63, 2^64-1) x 18 destination types (apd.Decimal and *apd.Decimal for integer sources, with a well-formedness check: the sign lives in Negative, never in the coefficient) through UnmarshalFromCBEDocument; the stored value is compared with the exact rational value of the source; the integer fragment is also compared with the Lean model (CONV)",
+        note="partial: float-involving conversions are decided by the exact-rational oracle only (the post-store comparisons rely on amd64's out-of-range float->int result, which is not modelled). Known finding: decimal -> big.Float rounds. Repaired: 63b1ffa (a negative big integer became a malformed decimal: found by the C04 thorough tier, now caught here in the quick tier)",
         level="proof", n_quick=6000, n_thorough=300000, shards=16,
         lean_modules=["CE.Props.C19", "CE.Conv.Int"],
-        rule="source event from boundary pools and random draws, against all 16 destinations in scope (float destinations only for integer sources); distinct by source text x destination",
+        rule="source event from boundary pools and random draws, against all 18 destinations in scope (float and decimal destinations only for integer sources); distinct by source text x destination",
         trusted_base=COMMON_TB,
     ),
     "C04": dict(
@@ -190,8 +190,8 @@ PROPS = {
         claim="Lean model of the per-session type caches (GetIteratorForType / GetBuilderGeneratorForType: Load, LoadOrStore of a WaitGroup placeholder, generate, Done, Store, and the failure branch) as a transition system over any number of goroutines; "
               "theorems for every history of calls in every interleaving: at any moment with no call in flight the cache entry is never a placeholder (quiescent_cache_has_no_placeholder), and after failed generations (unsupported kinds) it is exactly what a fresh session holds (failed_generation_leaves_fresh_cache); the model of the code before fix e509a33 is shown by `decide` to violate both. "
               "Regenerated facts (CE/Gen/Session.lean, proved equal to the model's expectations in CE/Gen/CheckSession.lean on every run): the protocol operations of both cache functions in source order, and for each per-document reset point (cbe Reader.SetReader, cbe Encoder.PrepareToEncode, rules Context.Reset, cte EncoderContext.Begin) the struct's fields and the fields the reset point assigns, which must cover the fields that influence the next document. "
-              "Harness: histories of 2-8 operations on one marshaler / unmarshaler / decoder / event-level encoder / validator (valid and invalid documents and values, unsupported and never-seen types, documents near MaxDocumentSizeBytes, encoders abandoned mid-document, streams rejected by the validator then Reset) compared call by call with fresh instances, with a watchdog for calls that never return",
-        note="partial: the reset points are tied by extracted field facts + the history oracle, not by a theorem over a model of each component; marshaler outputs that differ only in Go's random map iteration order are compared as data (Lean TREE.EQ). Event-level encoders are exercised with valid streams and abandoned prefixes only (their behaviour on invalid event sequences is unspecified)",
+              "Harness: histories of 2-8 operations on one marshaler / unmarshaler / decoder / event-level encoder / validator (valid and invalid documents and values, unsupported and never-seen types, declared recursive types with an unsupported field reached directly and through pointer / slice / struct wrappers, documents near MaxDocumentSizeBytes, encoders abandoned mid-document, streams rejected by the validator then Reset) compared call by call with fresh instances, with a watchdog for calls that never return",
+        note="partial: the cache model has ONE entry: the entries of types built on top of a failing one (pointer to it, slice of it), which the failure branch now also deletes (fix 7c58b8f, found by this check's recursive templates), are covered by the extracted protocol (cache.Range / cache.Delete tokens) and the history oracle only; the reset points are tied by extracted field facts + the history oracle, not by a theorem over a model of each component; marshaler outputs that differ only in Go's random map iteration order are compared as data (Lean TREE.EQ). Event-level encoders are exercised with valid streams and abandoned prefixes only (their behaviour on invalid event sequences is unspecified)",
         level="proof", n_quick=2400, n_thorough=120000, shards=16, timeout_quick=600,
         lean_modules=["CE.Props.C16", "CE.Cache.Proofs", "CE.Gen.CheckSession"],
         rule="case i: instance kind i mod 12; 2-8 operations drawn per kind (see harness/run_reuse.go); distinct by kind + operation descriptions; non-trivial = at least 2 operations",
@@ -278,8 +278,8 @@ PROPS = {
         claim="(1) panic containment: a Lean model of Go's panic propagation through an entry point's call tree (escapes: a deferred recover stops everything raised below it; code that is not itself an extracted entry point is arbitrary and may panic anywhere) and the theorem contained_sound: the syntactic predicate `contained` implies that no panic escapes, for EVERY behaviour of the code below. The facts (deferred recover, unchecked indexing of a parameter, callees) of all 27 exported error-returning functions of packages ce, cbe, cte are re-extracted from /repo by extract/main.go on every run and the obligation entry_points_contain_panics is decided over them by the kernel; no_panic_escapes_any_entry_point instantiates the theorem for the current source; entry_points_present keeps the 24 entry points the property names from disappearing. "
               "(2) termination of the CBE decoder model: every main-loop iteration and every chunk header consumes at least one byte (decodeOne_progress, decodeChunks_len), so a run takes at most len(document) iterations (loopIterations_le) and the fuel of the model is never what stops it (decode_never_stalls); the model is the one tied to cbe/decoder.go by the C01/C09/C27 correspondence. "
               "(3) no goroutine waits forever on the shared type caches (C17 no_goroutine_waits_forever, C16 failed_generation_leaves_fresh_cache: the hang of defect D09 cannot return). "
-              "Harness: every input (empty, header-only, random, mutated / truncated / length-inflated valid CBE and CTE documents, huge array headers, containers nested 10 .. 100 000 (thorough: 3 000 000) deep, up to 200 000 tiny tokens) is given to all 14 decode/unmarshal entry points (universal, CBE, CTE; reader and document forms; with and without a rules receiver) with rules on and off and 10 template kinds incl. chan/func/struct-with-chan; every seventh case marshals a Go value (unsupported kinds at top level, in fields, in interfaces, never-seen struct types, generated supported values) through the 4 marshal entry points. In-process recover + 30 s watchdog; the process runs under RLIMIT_AS 8 GiB and writes the call it is about to make to a file first, so a process killed by a Go fatal error (stack overflow, out of memory) is reported with its input",
-        note="partial (level other): Go run-time fatal errors (stack exhaustion, out of memory) and termination of the ANTLR-generated CTE parser are observed under a watchdog and an address-space limit, not proved; panic containment is proved from extracted syntactic facts (a recover that re-panics, or a goroutine started inside an entry point, would not be seen by the extractor: neither exists in the pinned source, and the harness observes escapes directly). Marshaling a cyclic value without RecursionSupport is documented-unsupported input (unbounded recursion) and is not generated",
+              "Harness: every input (empty, header-only, random, mutated / truncated / length-inflated valid CBE and CTE documents, huge array headers, containers nested 10 .. 3 000 000 deep through every opener kind (lists, maps, nodes, edges, records, record types, markers, and openers separated by complete typed arrays or comments), up to 50 000 (thorough: 200 000) tiny tokens) is given to all 14 decode/unmarshal entry points (universal, CBE, CTE; reader and document forms; with and without a rules receiver) with rules on and off and 10 template kinds incl. chan/func/struct-with-chan; every seventh case marshals a Go value (unsupported kinds at top level, in fields, in interfaces, never-seen struct types, generated supported values, values that contain themselves through a pointer / slice / map / two nodes, linked lists of 100-5000 nodes; recursion support on and off) through the 4 marshal entry points. In-process recover + 30 s watchdog; the process runs under RLIMIT_AS 8 GiB and writes the call it is about to make to a file first, so a process killed by a Go fatal error (stack overflow, out of memory) is reported with its input",
+        note="partial (level other): Go run-time fatal errors (stack exhaustion, out of memory) and termination of the ANTLR-generated CTE parser are observed under a watchdog and an address-space limit, not proved; panic containment is proved from extracted syntactic facts (a recover that re-panics, or a goroutine started inside an entry point, would not be seen by the extractor: neither exists in the pinned source, and the harness observes escapes directly). Three defects found by this check or by the sub-agent that seeded it were repaired: fbf3506 (3 000 000 nested '[' : fatal stack overflow in the recursive-descent parser), aa3e03d (marshaling a cyclic value: fatal stack overflow in the iterator), and earlier 56ca86c, bd060b4",
         level="other", n_quick=1600, n_thorough=64000, shards=16, timeout_quick=900, timeout_thorough=14000, rlimit_as_gb=8,
         lean_modules=["CE.Props.C07", "CE.Gen.CheckEntry", "CE.Cbe.Progress"],
         rule="case i: i mod 7 = 6 marshals a value of one of 9 kinds; otherwise one of 14 input classes x one of 10 template kinds x rules on (2/3) / off, given to all 14 entry points; distinct by input bytes; non-trivial = longer than 2 bytes",
